@@ -419,6 +419,7 @@ func checkC04(r *core.Run) {
 	}
 	// the block's flags are those of its height also on the reorganisation / re-apply paths (shared with C06)
 	c06FlagsAfterHeight(r, p, "R-C04-scripts")
+	c04TrustPerTx(r, p, ct)
 	c04DeleteBatches(r, p)
 	// subsidy schedule
 	if gr := p.Func("lib/btc.GetBlockReward"); gr != nil {
@@ -770,4 +771,73 @@ func c04DeleteBatches(r *core.Run, p *core.Program) {
 	}
 	sort.Strings(probs)
 	r.Check(len(probs) == 0, rule, "spent-records-all-deleted", p.Pos(fn.Pos()), "every spent record is in exactly one delete batch (full batches at counter = width-1, remainder when counter > 0)", strings.Join(probs, "; "))
+}
+
+// c04TrustPerTx: whether a transaction's scripts may be skipped ("already verified for the memory pool") is
+// decided per transaction: the flag that guards the verification spawns is computed afresh in every iteration
+// of the loop over the block's transactions from the block's trusted mark and the checker's answer for THIS
+// transaction. A flag that is carried from one iteration to the next lets one recognised transaction switch
+// off script verification for every later transaction of the block. Likewise the "wait for verifiers" flag of
+// the early-return path only ever becomes true.
+func c04TrustPerTx(r *core.Run, p *core.Program, ct *ssa.Function) {
+	const rule = "R-C04-scripts"
+	// the spawn sites of VerifyTxScript
+	var conds []*ssa.If
+	for _, b := range ct.Blocks {
+		for _, ins := range b.Instrs {
+			g, ok := ins.(*ssa.Go)
+			if !ok {
+				continue
+			}
+			mc, ok := g.Call.Value.(*ssa.MakeClosure)
+			if !ok {
+				continue
+			}
+			cf, _ := mc.Fn.(*ssa.Function)
+			if cf == nil || len(an.CallsTo(cf, false, "lib/script.VerifyTxScript")) == 0 {
+				continue
+			}
+			for _, cc := range controlConds(b) {
+				conds = append(conds, cc.If)
+			}
+		}
+	}
+	isHeader := func(b *ssa.BasicBlock) bool {
+		for _, pr := range b.Preds {
+			if b.Dominates(pr) {
+				return true
+			}
+		}
+		return false
+	}
+	n, bad := 0, ""
+	for _, iff := range conds {
+		v := iff.Cond
+		if u, ok := v.(*ssa.UnOp); ok && u.Op == token.NOT {
+			v = u.X
+		}
+		ph, ok := v.(*ssa.Phi)
+		if !ok || ph.Type().String() != "bool" {
+			continue
+		}
+		n++
+		seen := map[*ssa.Phi]bool{}
+		var walk func(x *ssa.Phi)
+		walk = func(x *ssa.Phi) {
+			if seen[x] {
+				return
+			}
+			seen[x] = true
+			if isHeader(x.Block()) {
+				bad = "the flag that skips script verification (" + an.Expr(ph) + ") carries its value over from the previous transaction (loop head at " + p.Pos(x.Pos()) + ")"
+			}
+			for _, e := range x.Edges {
+				if p2, ok := e.(*ssa.Phi); ok {
+					walk(p2)
+				}
+			}
+		}
+		walk(ph)
+	}
+	r.Check(n >= 1 && bad == "", rule, "trust-decided-per-transaction", p.Pos(ct.Pos()), "the flag guarding the verification spawns is computed afresh for every transaction", bad)
 }
